@@ -1,10 +1,16 @@
 import JPV.Tables.Common
+import JPV.Impl.Serialize
 namespace JPV.Tables
 open JPV JPV.Impl
 
+/-- the serializer's five precedence constants (filter_expressions.py) are only compared with each other (`>=`, `>`):
+their ORDER is the model's -/
+def serVals : List (Int × Int) :=
+  [((Impl.serPrecLowest : Int), serConst "PRECEDENCE_LOWEST"), ((Impl.serPrecOr : Int), serConst "PRECEDENCE_LOGICAL_OR"),
+   ((Impl.serPrecAnd : Int), serConst "PRECEDENCE_LOGICAL_AND"), ((Impl.serPrecRelational : Int), serConst "PRECEDENCE_RELATIONAL"),
+   ((Impl.serPrecPrefix : Int), serConst "PRECEDENCE_PREFIX")]
+
 theorem precedence_consts :
-    ((Impl.precLowest : Int), (Impl.precOr : Int), (Impl.precAnd : Int), (Impl.precRelational : Int), (Impl.precPrefix : Int)) =
-    (constOf "PRECEDENCE_LOWEST", constOf "PRECEDENCE_LOGICAL_OR", constOf "PRECEDENCE_LOGICAL_AND",
-     constOf "PRECEDENCE_RELATIONAL", constOf "PRECEDENCE_PREFIX") := by decide +kernel
+    serVals.all (fun a => serVals.all (fun b => compare a.1 b.1 == compare a.2 b.2)) = true := by decide +kernel
 
 end JPV.Tables
